@@ -273,7 +273,7 @@ theorem processIoWriteWait_quiet (c : Cls) (s : St) : Quiet c s (processIoWriteW
 theorem processIoWrite_quiet (c : Cls) (h1 : c ≠ .wrC) (h2 : c ≠ .flC) (D : Desc) (s : St) (i : SvcIn) : Quiet c s (processIoWrite D s i).1 := by
   simp [processIoWrite]; (repeat' split) <;> simp_all [cls, Ne.symm h1, Ne.symm h2]
 theorem printCmdList_quiet (c : Cls) (h1 : c ≠ .ack) (h2 : c ≠ .flC) (D : Desc) (s : St) : Quiet c s (printCmdList D s) := by
-  simp [printCmdList]; crunch
+  simp [printCmdList, printCmdForm]; crunch
 
 
 /-! ### the unsolicited machine's dispatch targets -/
